@@ -82,6 +82,8 @@ package openapi3filter
 //@   modifies *
 //@   preserves @C14 Validator.strict, Validator.errFunc, Validator.logFunc, Validator.router, strictResponseWrapper.*, warnResponseWrapper.*
 //@   preserves @C14 handlerCalls, errCalls, cliHdr, cliCode, cliBody
+//@   preserves @C15 all(openapi3), all(routers), all(gorillamux), all(legacy), all(pathpattern)
+//@   preserves @C15 globals(openapi3), globals(openapi3filter), globals(routers), globals(gorillamux), globals(legacy), globals(pathpattern)
 //@   records reqOK := (result == nil)
 //@   loop 0 invariant !input.Options.MultiError ==> len(me) == 0
 //@   loop 0 invariant (len(me) == 0) <==> (old(secOK(input, effSecurity(input))) && (forall j int :: 0 <= j && j < #i ==> old(pathParamOK(input, input.Route.PathItem.Parameters[j].Value))))
